@@ -54,11 +54,34 @@ def make_case(idx):
             prog.append(R.choice(WINCMDS))
         else:
             prog.append(R.choice(SCROLLS))
+    horiz = False
+    if R.random() < 0.1 and lines:
+        # horizontal family: long lines, jumps to columns around the window width and its multiples, from both sides
+        for _ in range(R.randint(1, 3)):
+            lines[R.randrange(len(lines))] = gen.long_line(R, R.choice(['ascii', kind]), cols * R.choice([2, 3, 4]))
+        horiz = True
+        lines[0] = gen.long_line(R, 'ascii', cols * R.choice([2, 3, 4]))      # the cursor starts on a long line
+        targets = [cols - 1, cols, cols + 1, cols + 2, cols // 2, cols + cols // 2, cols + cols // 2 + 1, 2 * cols, 2 * cols + 1, 3 * cols, 1]
+        prog = []
+        for _ in range(R.randint(6, 24)):
+            k = R.random()
+            if k < 0.45:
+                prog.append('%d|' % R.choice(targets))
+            elif k < 0.6:
+                prog.append(R.choice(['$', '0', '$', '^']))
+            elif k < 0.8:
+                prog.append(R.choice(['w', 'b', 'e', '3l', '3h', 'l', 'h', 'j', 'k', '5w', '5b']))
+            else:
+                prog.append(R.choice(['x', 'rZ', 'iab\x1b', 'D', 'u', '~', 'dw', 'A!\x1b']))
     raw = R.random() < 0.12
-    if raw and R.random() < 0.5:
+    if horiz and R.random() < 0.7:
+        # (the per-command normalisation is itself a motion and re-centres the view: most of this family runs without it and ends in a jump)
+        raw = True
+        prog = prog[:R.randint(1, 8)] + [R.choice(['$', '$', '%d|' % R.choice(targets)]), '%d|' % R.choice(targets)]
+    if raw and not horiz and R.random() < 0.5:
         # commands that move the cursor without redrawing anything
         prog.append(R.choice(['yb', 'y0', 'yB', 'y^', 'yFo', 'yTa', 'y2h', 'yk', 'y{', 'ma', '\x07']))
-    return {'lines': lines, 'rows': rows, 'cols': cols, 'pre': pre, 'prog': prog, 'idx': idx, 'kind': kind, 'raw': raw}
+    return {'lines': lines, 'rows': rows, 'cols': cols, 'pre': pre, 'prog': prog, 'idx': idx, 'kind': kind, 'raw': raw, 'horiz': horiz}
 
 
 def cells_of(line, W):
@@ -133,11 +156,13 @@ def run_case(args):
     # which ^L would refresh as well.  Without it ^L would change editor state (see DESIGN.md, C19) and could
     # not serve as a pure repaint.  Raw programs (no NORM, one checkpoint at the end) look at the un-normalised screen.
     NORM = b'mq`q'
+    prefixes = []        # keys up to and including checkpoint j
     if case['raw']:
         keys += b''.join(k.encode() + b'\x1b' for k in case['prog']) + b'\x0c\x0c'
     else:
         for k in case['prog']:
             keys += k.encode() + b'\x1b' + NORM + b'\x0c\x0c'
+            prefixes.append(keys)
     files = {'f1': gen.buf_bytes(case['lines'])}
     r, d = common.run_vi(vi, keys, files=files, timeout=90, lines=case['rows'], cols=case['cols'])
     common.rmcase(d)
@@ -155,6 +180,7 @@ def run_case(args):
     nck = 0
     nontriv = 0
     last = None
+    finals = []
     for j in range(0, len(marks) - 1, 2):
         m1, m2 = marks[j], marks[j + 1]
         scr.feed(out[pos:m1.start()])
@@ -182,12 +208,28 @@ def run_case(args):
             nontriv += 1
         last = s2
         final = (s2, c2, top, bot)
+        finals.append(final)
     if nck == 0:
         return ('inconclusive', None, wit, 0, 0)
     if scr.unknown:
         return ('screen:unknown-sequence', 'the editor emitted something the emulator does not know: %r' % scr.unknown[:3], wit, nck, nontriv)
+    if any('\x17' in p for p in case['prog']):
+        return (None, None, None, nck, nontriv)      # split windows: the window clause is checked for single-window runs only
+    if case.get('horiz') and len(finals) == len(prefixes):
+        # horizontal family: the window clause at EVERY checkpoint (one twin run per prefix)
+        for j in range(len(finals) - 1):
+            res = window_check(vi, case, files, prefixes[j], finals[j], W, wit, nck, nontriv, j)
+            if res[0]:
+                return res
+            nontriv += 1
     # twin run for the last checkpoint: buffer and cursor
-    keys2 = (keys[:-2] if case['raw'] else keys) + ('i' + MARK + '\x1b:w! out\n').encode()
+    return window_check(vi, case, files, keys[:-2] if case['raw'] else keys, final, W, wit, nck, nontriv, len(case['prog']) - 1)
+
+
+def window_check(vi, case, files, keys, final, W, wit, nck, nontriv, upto):
+    prog_all = case['prog']
+    case = dict(case, prog=prog_all[:upto + 1])
+    keys2 = keys + ('i' + MARK + '\x1b:w! out\n').encode()
     r2, d2 = common.run_vi(vi, keys2, files=files, timeout=90, lines=case['rows'], cols=case['cols'])
     got = common.readf(d2, 'out')
     common.rmcase(d2)
@@ -203,8 +245,6 @@ def run_case(args):
         return (None, None, None, nck, nontriv)
     mr_, mo = mpos[0]
     blines = [l.replace(MARK, '') for l in blines]
-    if any('\x17' in p for p in case['prog']):
-        return (None, None, None, nck, nontriv)      # split windows: the window clause is checked for single-window runs only
     s2, c2, top, bot = final
     nrows = bot - top + 1
     maxw = max([len(cells_of(l, W) or []) for l in blines] + [0])
@@ -260,7 +300,7 @@ def run(tier, V):
     c0 = make_case(base)
     cov = {'evaluations': nck, 'distinct_nontrivial': nontriv, 'programs': n, 'checkpoints': nck,
            'rule': ('%d programs of 5-30 commands (motions, ^E ^Y ^D ^U ^F ^B z-commands, edits, puts, joins, undo/redo, ex commands, window commands) x buffers empty / shorter / longer than the window, long lines (horizontal scroll) '
-                    'x windows 3x10 .. 24x80 x hl/hll on/off.  after EVERY command a ^L^L checkpoint: emulated screen before the repaint == after it (rows of the active window and cursor); at the last checkpoint a twin run gives buffer and cursor: '
+                    'x windows 3x10 .. 24x80 x hl/hll on/off.  after EVERY command a ^L^L checkpoint: emulated screen before the repaint == after it (rows of the active window and cursor); at the last checkpoint (for the 10%% horizontal-scroll programs - long lines, jumps to columns around multiples of the window width - at every checkpoint) a twin run gives buffer and cursor: '
                     'rows must be a contiguous window containing the cursor line and the terminal cursor must be on the marker\'s cell.  non-trivial = a checkpoint whose screen differs from the previous one (something was redrawn).' % n),
            'samples': [{'window': (c0['rows'], c0['cols']), 'program': [common.show(p, 20) for p in c0['prog'][:10]]}]}
     assumptions = ['a VT100-style terminal: CUP, CR, LF with scroll region, CUF/CUB, EL, IL/DL, DECSTBM, SGR (the complete set term.c emits)',
